@@ -102,6 +102,16 @@ CHECKS["C18"] = dict(
          "recv failures of several exception types (identity checked), optionally while the send gate is held.",
     note=DISPATCH_NOTE, design="4/C18")
 
+CHECKS["C14"] = dict(
+    technique="Rocq theorems over exact integer arithmetic (accept iff <= 1 fractional digit, below 1e9) + exhaustive tenths sweep",
+    text="C14_accept / C14_reject / C14_int / C14_wire for every decimal m*10^e of magnitude below 1e9 (no sampling), "
+         "C14_keyword (the validator's multipleOf on the re-parsed payload is that remainder test) and C14_positions (exactly "
+         "the six positions, re-checked from the regenerated tables). Tied by the exhaustive k/10 (|k|<=100000), k/100, "
+         "k/1000 sweeps, integers, Decimal-typed values and sampled magnitudes through the real validation and to_json, and by "
+         "the model on a stratified sample in all six positions.",
+    note="Trusted: Coq kernel + VM, translator; CPython float repr / decimal / '%.1f' formatting are modelled (a float is its "
+         "shortest decimal form), not verified.", design="4/C14")
+
 PENDING_REASON = "check not built yet in this round (work in progress; see DESIGN.md section 9)"
 
 
